@@ -1015,8 +1015,7 @@ def _advance_head_front(state: State, heads: List[FlowHead]) -> List[FlowHead]:
             # We only advance merging heads if all internal events were processed
             actionable_heads.append(head)
             continue
-        elif head.status == FlowHeadStatus.ACTIVE:
-            head.position += 1
+        advance_position = head.status == FlowHeadStatus.ACTIVE
 
         if flow_state.status == FlowStatus.WAITING:
             flow_state.status = FlowStatus.STARTING
@@ -1025,6 +1024,11 @@ def _advance_head_front(state: State, heads: List[FlowHead]) -> List[FlowHead]:
         flow_finished = False
         flow_aborted = False
         try:
+            if advance_position:
+                # Moving the head registers it for the event of the next match statement, which
+                # evaluates that statement's event name and can raise: keep it inside the try block
+                head.position += 1
+
             new_heads = slide(state, flow_state, flow_config, head)
 
             # Advance all new heads created by a head fork
